@@ -2,9 +2,11 @@ package server
 
 import (
 	"context"
+	"crypto/tls"
 	"encoding/json"
 	"errors"
 	"fmt"
+	"net"
 	"strings"
 	"sync"
 	"sync/atomic"
@@ -41,6 +43,8 @@ type c16Case struct {
 	SecondShutdownMs int `json:"second_shutdown_after_ms,omitempty"`
 	// HooksReversed: WithTerminateHook is called before WithConnectHook
 	HooksReversed bool `json:"terminate_hook_installed_first,omitempty"`
+	// TLS: the server sits on a TLS listener and the clients speak TLS (the server then runs the handshake itself)
+	TLS bool `json:"tls_listener,omitempty"`
 }
 
 type ctxConnID struct{}
@@ -166,7 +170,19 @@ func c16Bubble(c c16Case) c08Result {
 		lg.termTime[id] = time.Now()
 		lg.mu.Unlock()
 	})
-	srv := kmipserver.NewServer(ln, exec)
+	var serverLn net.Listener = ln
+	if c.TLS {
+		serverLn = tlsListener{ln, testTLSConfig()}
+	}
+	// newPeer wraps a freshly dialled connection (TLS client over it if the case says so)
+	newPeer := func(conn *memnet.Conn) *peer {
+		p := &peer{c: conn, gate: make(chan struct{}, 1)}
+		if c.TLS {
+			p.rw = tls.Client(conn, &tls.Config{InsecureSkipVerify: true})
+		}
+		return p
+	}
+	srv := kmipserver.NewServer(serverLn, exec)
 	if c.HooksReversed {
 		// the two setters are independent: the order in which they are called must not matter
 		srv = srv.WithTerminateHook(terminateHook).WithConnectHook(connectHook)
@@ -204,7 +220,8 @@ func c16Bubble(c c16Case) c08Result {
 		if err != nil {
 			return fail("connect-refused", "%v", err)
 		}
-		cl := &client{p: &peer{c: conn, gate: make(chan struct{}, 1)}, spec: cc, id: accepted}
+		cl := &client{p: newPeer(conn), spec: cc, id: accepted}
+		w := cl.p.stream()
 		accepted++
 		go cl.p.collect()
 		clients = append(clients, cl)
@@ -213,7 +230,7 @@ func c16Bubble(c c16Case) c08Result {
 		if cc.Phase != "hook-fails" {
 			for r := 0; r < cc.Requests; r++ {
 				b, _ := mkReq(0, true)
-				_, _ = conn.Write(b)
+				_, _ = w.Write(b)
 				cl.sent++
 				synctest.Wait()
 			}
@@ -221,16 +238,16 @@ func c16Bubble(c c16Case) c08Result {
 		switch cc.Phase {
 		case "partial":
 			b, _ := mkReq(0, true)
-			_, _ = conn.Write(b[:len(b)/2])
+			_, _ = w.Write(b[:len(b)/2])
 		case "handler":
 			b, rid := mkReq(cc.HandlerMs, cc.Honours)
 			cl.inflight = rid
-			_, _ = conn.Write(b)
+			_, _ = w.Write(b)
 			cl.sent++
 			if cc.Pipelined {
 				synctest.Wait() // the first request is in its handler
 				b2, _ := mkReq(0, true)
-				_, _ = conn.Write(b2)
+				_, _ = w.Write(b2)
 			}
 		case "stalled-response":
 			cl.p.stalled.Store(true)
@@ -239,7 +256,7 @@ func c16Bubble(c c16Case) c08Result {
 			cl.inflight = rid
 			setPeerWindow(conn, 8)
 			conn.PauseReads()
-			_, _ = conn.Write(b)
+			_, _ = w.Write(b)
 			cl.sent++
 		case "closed":
 			cl.p.mu.Lock()
@@ -271,7 +288,7 @@ func c16Bubble(c c16Case) c08Result {
 				if err != nil {
 					return
 				}
-				cl.p = &peer{c: conn, gate: make(chan struct{}, 1)}
+				cl.p = newPeer(conn)
 				go cl.p.collect()
 			}()
 			synctest.Wait()
@@ -324,7 +341,7 @@ func c16Bubble(c c16Case) c08Result {
 				lg.mu.Lock()
 				// its accept order is whatever the hook assigns next; remember the peer only
 				lg.mu.Unlock()
-				cl.p = &peer{c: conn, gate: make(chan struct{}, 1)}
+				cl.p = newPeer(conn)
 				go cl.p.collect()
 			}()
 		}
@@ -338,7 +355,7 @@ func c16Bubble(c c16Case) c08Result {
 				switch cl.spec.AfterAct {
 				case "send":
 					b, _ := mkReq(0, true)
-					_, _ = cl.p.c.Write(b)
+					_, _ = cl.p.stream().Write(b)
 				case "close":
 					cl.p.mu.Lock()
 					cl.p.closed = true
@@ -480,7 +497,7 @@ func c16Bubble(c c16Case) c08Result {
 func TestC16Shutdown(t *testing.T) {
 	const name = "TestC16Shutdown"
 	rec := evid.New("C16", name, "0..6 connections, each in a drawn phase when Shutdown is called (idle, partial message sent, request in a handler of 0 / 1 s / 2.9 s / 3.1 s / 10 s honouring or ignoring its context (optionally with the next request already sent and waiting in the server's read loop), response blocked on a non-reading client, "+
-		"connecting during shutdown, accepted but not yet registered by the accept loop when Shutdown starts (the loop is held at a yield point and released once Shutdown waits or has returned), already closed, connect hook failing), optionally a second, overlapping Shutdown call 1 / 500 / 2000 / 3500 ms after the first, with 0..2 completed requests before and an optional client action (send more / close) at 0.5 / 2 / 3.5 s after shutdown began; synctest bubble (the 3 s grace period is exact and free); "+
+		"connecting during shutdown, accepted but not yet registered by the accept loop when Shutdown starts (the loop is held at a yield point and released once Shutdown waits or has returned), already closed, connect hook failing), on a plain or (one case in three) a TLS listener, optionally a second, overlapping Shutdown call 1 / 500 / 2000 / 3500 ms after the first, with 0..2 completed requests before and an optional client action (send more / close) at 0.5 / 2 / 3.5 s after shutdown began; synctest bubble (the 3 s grace period is exact and free); "+
 		"oracle at the instant Shutdown returns and after 5 more seconds: listener closed, Serve returned ErrShutdown, no handler running or started later, census 0, every in-flight request answered or cancelled no earlier than 3 s, exactly one terminate hook per successful connect hook after the connection's last handler, none otherwise; "+
 		"non-trivial = a connection mid-handler and another connection in a different phase; distinct by case").Attach(t)
 	if rp := evid.LoadReplay(name); rp != nil {
@@ -493,6 +510,7 @@ func TestC16Shutdown(t *testing.T) {
 		}
 		return
 	}
+	testTLSConfig() // built once, outside any bubble
 	phases := []string{"idle", "partial", "handler", "handler", "handler", "stalled-response", "connecting", "accepted-held", "closed", "hook-fails"}
 	rapid.Check(t, func(rt *rapid.T) {
 		var c c16Case
@@ -518,9 +536,10 @@ func TestC16Shutdown(t *testing.T) {
 			c.SecondShutdownMs = rapid.SampledFrom([]int{1, 500, 2000, 3500}).Draw(rt, "second-shutdown-ms")
 		}
 		c.HooksReversed = rapid.Bool().Draw(rt, "hooks-reversed")
+		c.TLS = rapid.IntRange(0, 2).Draw(rt, "tls") == 0
 		key, _ := json.Marshal(c)
 		var labels []string
-		labels = append(labels, fmt.Sprintf("second-shutdown=%v", c.SecondShutdownMs > 0), fmt.Sprintf("hooks-reversed=%v", c.HooksReversed))
+		labels = append(labels, fmt.Sprintf("second-shutdown=%v", c.SecondShutdownMs > 0), fmt.Sprintf("hooks-reversed=%v", c.HooksReversed), fmt.Sprintf("tls=%v", c.TLS))
 		for _, cc := range c.Conns {
 			labels = append(labels, "phase="+cc.Phase)
 		}
